@@ -75,8 +75,31 @@ def substitute_flag(x, name, value):
   return x
 
 
+def wrapper_program(rng):
+  """a single-rule grounded predicate that its consumers reach only through un-annotated single-rule wrappers"""
+  prog = Program()
+  fact_pred(prog, rng, 'Src', 2, rng.randint(2, 5), (0, 1, 2, 3))
+  x, y = V('x'), V('y')
+  derived(prog, 'Tg', ['col0', 'col1'], ['int', 'int'],
+          [rule('Tg', [['col0', x], ['col1', OP('+', y, L(rng.choice([0, 1, 5])))]], atom('Src', x, y))])
+  depth = rng.randint(1, 2)
+  prev = 'Tg'
+  for i in range(depth):
+    name = 'Wrap%d' % i
+    body = atom(prev, x, y) if rng.random() < 0.5 else AND(atom(prev, x, y), {'test': OP('>=', x, L(0))})
+    derived(prog, name, ['col0', 'col1'], ['int', 'int'], [rule(name, [['col0', x], ['col1', y]], body)])
+    prev = name
+  derived(prog, 'Use', ['col0'], ['int'], [rule('Use', [['col0', y]], atom(prev, x, y))])
+  derived(prog, 'Use2', ['col0'], ['int'], [rule('Use2', [['col0', OP('+', x, y)]], AND(atom(prev, x, y), atom('Src', x, V('z'))))])
+  prog.grounded = ['Tg']
+  prog.features.add('tpl:grounded-behind-wrapper')
+  return prog
+
+
 def build(rng, mask, kwargs):
-  r = kwargs['_seed'] % 6
+  r = kwargs['_seed'] % 7
+  if r == 2:
+    return wrapper_program(rng)
   if r == 0:
     return helper_chain_program(rng)
   if r == 1:
